@@ -13,6 +13,11 @@
   dirtyjournal ext4_1k base profile with a committed, unreplayed transaction in the journal (needs_recovery)
   size_*       small populated filesystems whose block counts sit on / next to L2-table boundaries (128 blocks at 1k,
                512 at 4k) with per-group bitmaps (no flex_bg), so that the last group's tables are the last mapped clusters
+               (the list is E2image.tla SizesQuick / SizesMore, handed over by Emit_E2image)
+  wide_*       sparse filesystems larger than 4 GiB (E2image.tla WideQuick / WideMore): the geometry is searched so that every
+               target block of the catalogue (just below, at, just above byte 2^31 and 2^32) is an inode-table block of a group
+               without backups; the inodes in those blocks are put in use (debugfs seti/sif/ln), every group has an initialised
+               block bitmap (no uninit_bg), and one block-mapped file has its data block in the group after the last target
 
 Built with the scratch-built mke2fs / debugfs / e2fsck of the current tree, cached next to that build.  Every image must pass
 e2fsck -fn (info["ok"]); the caller skips and reports the ones that do not."""
@@ -99,7 +104,7 @@ def interleave_dirs(n=60):
     return s
 
 
-def make(build, name, outdir):
+def make(build, name, outdir, spec=None):
     env = tool_env(build)
     img = os.path.join(outdir, name + ".img")
     info = {"name": name}
@@ -151,6 +156,8 @@ def make(build, name, outdir):
         os.unlink(blob)
         info["mke2fs_rc"] = 0
         return _finish(build, env, img, info)
+    if name.startswith("wide_"):
+        return make_wide(build, env, img, info, spec, tdir)
     if name.startswith("size_"):
         _, bs, blocks = name.split("_")
         bs, blocks = int(bs), int(blocks)
@@ -166,15 +173,97 @@ def make(build, name, outdir):
     raise KeyError(name)
 
 
-# block counts around the L2-table boundaries (1k: 128 blocks per table, 4k: 512) and the group boundary
-SIZES_QUICK = ["size_1024_1280", "size_1024_1281", "size_1024_1343", "size_1024_1407", "size_1024_1408", "size_1024_1409",
-               "size_4096_2048", "size_4096_2049", "size_4096_2559", "size_4096_2560", "size_4096_2561"]
-SIZES_MORE = ["size_1024_%d" % n for n in (1100, 1151, 1152, 1153, 1279, 1344, 1345, 1535, 1536, 1537, 2047, 2048, 2049, 2175, 2176, 2177)] + \
-             ["size_4096_%d" % n for n in (2100, 2303, 2304, 2305, 3071, 3072, 3073)] + ["size_2048_%d" % n for n in (2048, 2303, 2304, 2305)]
+def _has_backup(k):
+    if k < 2:
+        return True
+    for p in (3, 5, 7):
+        x = p
+        while x < k:
+            x *= p
+        if x == k:
+            return True
+    return False
+
+
+def wide_geometry(bs, first, targets, max_itb=64):
+    """blocks per group (multiple of 8) and inode-table length such that every target block lies inside the inode table
+    (group start + 2 ...) of a group that carries no backup superblock; the shortest table wins, then the largest group"""
+    best = None
+    for g in range(8 * bs, 4 * bs, -8):
+        n = 0
+        for t in targets:
+            k, r = divmod(t - first, g)
+            if _has_backup(k) or r < 2 or r - 2 >= max_itb:
+                n = None
+                break
+            n = max(n, r - 1)
+        if n and (best is None or n < best[1]):
+            best = (g, n)
+    return best
+
+
+def make_wide(build, env, img, info, spec, tdir):
+    bs, blocks, targets = spec["bs"], spec["blocks"], sorted(spec["targets"])
+    first = 1 if bs == 1024 else 0
+    isz = 256
+    ipb = bs // isz
+    geo = wide_geometry(bs, first, targets)
+    info["spec"] = spec
+    if not geo:
+        info["ok"] = False
+        info["mke2fs_err"] = "no geometry puts the targets %s into inode tables" % targets
+        return info
+    g, itb = geo
+    while (itb * ipb) % 8:          # mke2fs keeps inodes per group a multiple of 8
+        itb += 1
+    ipg = itb * ipb
+    groups = (blocks - first + g - 1) // g
+    info["geometry"] = {"bpg": g, "itb": itb, "ipg": ipg, "groups": groups}
+    rc, err = _mk(build, env, img, blocks * bs // 1024, "-t ext4 -b %d -g %d -N %d -I %d -O ^has_journal,^flex_bg,^resize_inode,^uninit_bg" % (bs, g, groups * ipg, isz),
+                  small_tree(tdir))
+    info["mke2fs_rc"] = rc
+    info["mke2fs_err"] = err
+    if rc:
+        info["ok"] = False
+        return info
+    s = "mkdir /w\n"
+    want = {}
+    for t in targets:
+        k, r = divmod(t - first, g)
+        ino = k * ipg + (r - 2) * ipb + 1
+        want[ino] = t
+        s += "seti <%d>\nsif <%d> mode 0100644\nsif <%d> links_count 1\nsif <%d> mtime 1500000000\nln <%d> /w/t%d\nimap <%d>\n" % ((ino,) * 5 + (t, ino))
+    # one block-mapped file whose only data block lies in the group after the last target (file data beyond the last boundary)
+    k = (targets[-1] - first) // g + 1
+    if k < groups:
+        ino, blk = k * ipg + 1, first + k * g + 2 + itb + 5
+        s += "seti <%d>\nsif <%d> mode 0100644\nsif <%d> links_count 1\nsif <%d> size %d\nsif <%d> blocks %d\nsif <%d> block[0] %d\nsetb %d\nzap_block -p 0x5a %d\nln <%d> /w/data\n" % (
+            ino, ino, ino, ino, bs, ino, bs // 512, ino, blk, blk, blk, ino)
+        info["data_block"] = blk
+    rc, out, err = _debugfs(build, env, img, s)
+    import re
+    got = {int(a): int(b) for a, b in re.findall(r"Inode (\d+) is part of block group \d+\s+located at block (\d+)", (out + err).decode("utf8", "replace"))}
+    if got != want:
+        info["ok"] = False
+        info["mke2fs_err"] = "the inodes meant for the target blocks are elsewhere: wanted %s, debugfs imap says %s" % (want, got)
+        return info
+    return _finish(build, env, img, info, fix=True)
+
+
 EXTRA = ["deep_ext", "deep_ind", "dense", "lastdir", "manygroups", "mmp", "dirtyjournal"]
 
 
-def images(build, names):
+def size_name(e):
+    return "size_%d_%d" % (e["bs"], e["blocks"])
+
+
+def wide_name(e):
+    return "wide_%d" % e["bs"]
+
+
+def images(build, names, specs=None):
+    """specs: name -> catalogue entry of Emit_E2image for the names that need one (wide_*)"""
+    specs = specs or {}
     stamp = open(os.path.join(build, ".verif_stamp")).read().strip()[:16]
     gen_h = hashlib.sha256(open(os.path.abspath(__file__), "rb").read()).hexdigest()[:8]
     outdir = os.path.join(build, "verif-c19-%s-%s" % (stamp, gen_h))
@@ -185,10 +274,10 @@ def images(build, names):
         os.makedirs(outdir, exist_ok=True)
         meta_p = os.path.join(outdir, "meta.json")
         meta = json.load(open(meta_p)) if os.path.exists(meta_p) else {}
-        todo = [n for n in names if n not in meta]
+        todo = [n for n in names if n not in meta or (n in specs and meta[n].get("spec") != specs[n])]
         if todo:
             with cf.ThreadPoolExecutor(max_workers=6) as ex:
-                for info in ex.map(lambda n: make(build, n, outdir), todo):
+                for info in ex.map(lambda n: make(build, n, outdir, specs.get(n)), todo):
                     meta[info["name"]] = info
             for n in todo:
                 shutil.rmtree(os.path.join(outdir, "t_" + n), ignore_errors=True)
